@@ -4,7 +4,7 @@ package lib
 
 // C06 – monitor 4 ("reloadrace"): concurrent differential with quiet points.
 //
-// One live manager; K checker goroutines evaluate cheap literal coverts in a tight loop through the
+// One live manager; K (= number of cores; more checkers only starve the reloader) checker goroutines evaluate cheap literal coverts in a tight loop through the
 // real ParseOrResolveBlocklisted; a reloader performs reloads in PAIRS back to back (R1: A -> B,
 // at once R2: B -> C – checkers that lost their policy state to R1 are re-deriving it while R2 runs),
 // through the SIGHUP path (ParseConfig on the rewritten file + OnReload).  Then a QUIET POINT: no new
@@ -135,15 +135,9 @@ func TestVerifC06ReloadQuietPoint(t *testing.T) {
 	// ---- checkers ------------------------------------------------------------------------------------------------------
 	cores := runtime.NumCPU()
 	procs := 4 * cores
-	if v := os.Getenv("C06X_PROCS"); v != "" {
-		fmt.Sscan(v, &procs)
-	}
 	oldProcs := runtime.GOMAXPROCS(procs)
 	defer runtime.GOMAXPROCS(oldProcs)
 	K := cores
-	if v := os.Getenv("C06X_K"); v != "" {
-		fmt.Sscan(v, &K)
-	}
 	var paused, stop atomic.Bool
 	var inflight, checks atomic.Int64
 	var wg sync.WaitGroup
@@ -175,9 +169,6 @@ func TestVerifC06ReloadQuietPoint(t *testing.T) {
 	// ---- reloader ------------------------------------------------------------------------------------------------------
 	rng := kit.Rand("c06/reloadrace")
 	pairs := kit.Tier(12000, 120000)
-	if v := os.Getenv("C06X_PAIRS"); v != "" {
-		fmt.Sscan(v, &pairs)
-	}
 	var tReload time.Duration
 	nReloads := 0
 	cur := 0
@@ -187,9 +178,6 @@ func TestVerifC06ReloadQuietPoint(t *testing.T) {
 	for p := 0; p < pairs; p++ {
 		// a pair (sometimes three) of reloads back to back; the last two are R1 (-> b) and R2 (-> c, in force afterwards)
 		burst := 2 + rng.Intn(4)/3
-		if v := os.Getenv("C06X_BURST"); v != "" {
-			fmt.Sscan(v, &burst)
-		}
 		x1 := time.Now()
 		b, c := cur, cur
 		for r := 0; r < burst; r++ {
